@@ -273,6 +273,21 @@ Theorem shed_only_if_hot_and_loaded_in_history : forall c t0 ops k now cpu1 cpu2
   (overloadFactorLowerBound * capacity (final (init c t0) pre) now < snd (hist_avg 0 0%Q rs))%Q.
 Proof. exact shed_only_history_core. Qed.
 
+(*    "Each admitted request counts as in flight from Allow until its promise is resolved once", with the
+      once-ness as a hypothesis on the callers alone ([res_ids]: the promises named by the Pass / Fail
+      operations of the history; no result appears in the hypothesis): for every interleaving of the requests'
+      operations, flying = promises handed out - promises resolved, only handed-out promises are resolved, and
+      flying is never negative.  Without the hypothesis the conclusion is false
+      (Pinned.double_resolution_breaks_conservation_refuted). *)
+Theorem flying_counts_open_requests : forall c t0 ops,
+  cenabled c = true -> NoDup (res_ids ops) ->
+  let rs := run (init c t0) ops in
+  flying (final (init c t0) ops) =
+    Z.of_nat (length (granted 0 rs)) - Z.of_nat (length (resolved ops rs)) /\
+  incl (resolved ops rs) (granted 0 rs) /\
+  0 <= flying (final (init c t0) ops).
+Proof. exact open_requests_core. Qed.
+
 (* 10. windowScale, as a formula in the configuration: (buckets per second) / (milliseconds per second)
       = 10^6 / bucket duration in ns, in exact rationals - for every bucket duration, whether or not it
       divides one second (Pinned.truncated_window_scale_sheds_below_ten_percent_refuted is the
@@ -317,6 +332,7 @@ Print Assumptions wrapped_requests_leave_nothing_in_flight.
 Print Assumptions avg_flying_is_moving_average.
 Print Assumptions shed_when_saturated_in_history.
 Print Assumptions shed_only_if_hot_and_loaded_in_history.
+Print Assumptions flying_counts_open_requests.
 Print Assumptions window_scale_is_buckets_per_second_over_1000.
 Print Assumptions reference_peak_and_latency_are_the_windows.
 Print Assumptions reference_capacity_is_capacity.
@@ -462,3 +478,9 @@ Proof. vm_compute. repeat split; reflexivity. Qed.
 (* a bucket duration that does not divide one second: 600 ms -> windowScale = 1/600 *)
 Example ex_scale_600ms : Qeq (window_scale (mkCfg 3000000000 5 900 true)) (1 # 600).
 Proof. vm_compute. reflexivity. Qed.
+
+(* overlapping requests: three let in, the second finishes first (Fail), then the first (Pass): each named once *)
+Example ex_open_requests :
+  let ops := [OAllow B 0 0; OAllow B 0 0; OAllow (B + 1) 0 0; OFail 1; OPass 0 (B + 5 * ms)] in
+  NoDup (res_ids ops) /\ flying (final (init cfg1 B) ops) = 1.
+Proof. split; [|reflexivity]. repeat (constructor; [cbn; intuition discriminate|]). constructor. Qed.
